@@ -39,6 +39,47 @@ CHECKS["C06"] = dict(
          "definition allocs (ties to the emitted line by theorem alloc_reply).",
     design_ref="DESIGN.md §6 C06")
 
+GW_NOTE = ("Trusted: Lean kernel; Model/Gateway.lean (+Validate, Version, Ota, Codec) as a model of __init__.py / handler.py / "
+           "sensor.py / ota.py / message.py — validated on every run by the correspondence (real gateway in-process vs model "
+           "driver, op by op, through this property's projection), not proved; tables regenerated from /repo; inline pump "
+           "(threaded pump ordering is C19); version strings outside the modelled awesomeversion domain treated as rejected.")
+CHECKS["C01"] = dict(
+    technique="Lean 4 proof: invariant (Safe) preserved by every op via generic per-handler induction + exception-freedom of logic under it; differential correspondence on exception kind per op; oracle on the real pump incl. a live poll thread (thorough)",
+    text="pump_total_run: after ANY history of inbound lines and well-formed controller calls (all versions, base/TCP/MQTT kinds, "
+         "smart-sleep and OTA sessions, saves, restarts) processing any text as the next line raises nothing and the invariant "
+         "still holds; rejected_noop: a malformed or invalid line leaves state, outputs and callbacks untouched; "
+         "mqtt_publish_total: only decodable lines reach the MQTT publish path. Every Python construct that can raise inside "
+         "logic is an explicit `fail` in the model, and each is shown unreachable (table facts re-checked against the "
+         "generated tables).",
+    note=GW_NOTE + " That no *other* Python construct raises is sampled (exception kind per op compared), not proved.",
+    design_ref="DESIGN.md §6 C01")
+CHECKS["C07"] = dict(
+    technique="Lean 4 proof: output-aware generic per-handler induction (Hold relation: destinations of every emitted line, sleeping flags monotone, hold-queue invariant) over all histories; differential correspondence; oracle on destinations of real transport.send calls",
+    text="nothing_to_sleeping_node(_run): in every reachable state, a step emits a line for node k only if it is a stream "
+         "response, k is not sleeping, or the step processes k's own wake-up announcement; sleeping_persists; "
+         "others_not_delayed / withheld_only_if_sleeping: a reply is withheld only when its own destination sleeps.",
+    note=GW_NOTE + " Controller calls are atomic events (no pre-emption inside set_child_value).",
+    design_ref="DESIGN.md §6 C07")
+CHECKS["C08"] = dict(
+    technique="Lean 4 proof: characterisation of the wake-up burst (queue ++ pending sets, in order), desired-value bookkeeping relation over all steps, call-time refusal theorems; differential correspondence; oracle with an independent spec of hold queue and desired map",
+    text="wake_burst: the burst is exactly the withheld lines oldest first followed by one set per (child, reported value type) "
+         "with a pending desired value, the queue is empty afterwards; line_step_desired / report_clears / "
+         "desired_survives_wake: a desired value is re-sent at every wake-up until a report of exactly that type, inbound "
+         "lines never create one; queue_only_appended: withheld lines are neither dropped nor duplicated between wake-ups; "
+         "req_sees_desired; refused_call_changes_nothing / accepted_value_is_sendable: a value that cannot be sent is refused "
+         "at call time, an accepted one builds a valid command (with C01's invariant the wake-up cannot fail).",
+    note=GW_NOTE,
+    design_ref="DESIGN.md §6 C08")
+CHECKS["C09"] = dict(
+    technique="Lean 4 proof: algebraic laws of padding, block slicing, hex/word packing, CRC bound and Intel-HEX write/load round trip for all byte images; differential correspondence against ota.py, crcmod and intelhex; independent reassembly oracle on real sessions",
+    text="ota_serves_advertised: for every image the advertised block count B and CRC C are such that blocks 0..B-1 (any order, "
+         "repetition, node) concatenate to image + 1..128 bytes 0xFF, length 16*B, multiple of 128, CRC-16/MODBUS = C, each "
+         "response echoes type/version/index; hex_load: hexLoad (hexWrite base recLen img) = img up to 2^32; gateway-level "
+         "theorems show the handlers' replies are these pure functions independent of other nodes.",
+    note="Trusted: Lean kernel; Model/Ota.lean, Model/IntelHex.lean and the OTA handlers of Model/Gateway.lean as models of "
+         "ota.py, crcmod 'modbus', struct/binascii and intelhex 2.3 (sampled by the correspondence, not proved).",
+    design_ref="DESIGN.md §6 C09")
+
 NOT_YET = {
 }
 
